@@ -8,12 +8,17 @@ def hook(payload):
     return "!" not in payload
 
 
+def check_names(count):
+    """Descriptions of the recording checks: their alphabetical order is the reverse of the order they are declared in."""
+    return ["k%d" % (count - 1 - i) for i in range(count)]
+
+
 def predict_run(decls, check_rules, header, run):
     """run: {"kind": "reader"|"writer"|"reader_explicit_close", "mode", "limit", "table"}
     -> (log, alternatives for the end block) ; log entries as recorded by mc/recording.py"""
     fixed = decls[0]["fmt"] == "fixed"
     names = [d["name"] for d in decls]
-    checks = ["k%d" % i for i in range(len(check_rules))]
+    checks = check_names(len(check_rules))
     log = [[c, "reset"] for c in checks]
     mode = run.get("mode", "raise")
     limit = run.get("limit")
